@@ -209,7 +209,7 @@ def judge (f out : List String) : Verdict :=
     let pairs := zipLay c.recs c.lay.recs
     let single := c.mode == "parse" || c.mode == "read"
     let flat := c.mode == "flat" || c.mode == "readflat" || c.mode == "readflatgz"
-    let inDom := c.recs.all (fun r => wfLoose r && r.seq.length ≥ 1) && c.recs.length ≥ 1
+    let inDom := c.recs.all (fun r => wfLoose r && r.seq.length ≥ 1 && quoteFreeValues r) && c.recs.length ≥ 1
       && (if single then c.recs.length == 1 && c.lay.header.isNone else true)
       && (flat == c.lay.header.isSome)
       && pairs.all (fun p => noSlashEnd p.1 p.2)
@@ -223,7 +223,8 @@ def judge (f out : List String) : Verdict :=
     let cls := triv ++ c.mode ++ "/r" ++ toString c.recs.length
       ++ (if c.lay.finalNewline then "/nl" else "/nonl")
       ++ (if nfeat == 0 then "/f0" else if nfeat ≤ 5 then "/f1-5" else "/f6+")
-      ++ (if multiloc then "/multiloc" else "") ++ (if pairs.any (fun p => orgOmitted p.1 p.2) then "/noorg" else "") ++ kf
+      ++ (if multiloc then "/multiloc" else "") ++ (if pairs.any (fun p => orgOmitted p.1 p.2) then "/noorg" else "")
+      ++ (if c.recs.all quoteFreeValues then "" else "/quote-in-value") ++ kf
     { corr := outN == m, judge := if inDom then some (outN == expected) else none, cls := cls
       detail := if outN == m && outN == expected then "" else
         "model: " ++ lineOf (m.map fun x => if x.length > 300 then (x.take 300).toString ++ "…" else x) ++ "  expected: "
